@@ -84,7 +84,7 @@ def judge(case, res, out, replay):
                 if o['hooks'] != ['agent', 'agent']:
                     out.violation('hooks:not-installed', 'after %s hooks are %s' % (op, o['hooks']), witness, replay)
                     return False
-                if o['timers'] != 1:
+                if o['timers'] is not None and o['timers'] != 1:
                     mech = 'start:second-timer' if o['timers'] > 1 else 'start:no-timer'
                     out.violation(mech, 'after %s there are %d poll timer threads' % (op, o['timers']), witness, replay)
                     return False
@@ -97,9 +97,13 @@ def judge(case, res, out, replay):
             out.violation('start:not-started', 'Deep.started is false after start', witness, replay)
             return False
         if op.startswith('shutdown'):
-            if o['timers'] != 0:
+            if o['timers']:
                 out.violation('shutdown:poll-timer-alive', 'after %s %d poll timer thread(s) still run (faults %s)' % (
                     op, o['timers'], case['faults']), witness, replay)
+                return False
+            if o.get('polls_after_shutdown') and 'server_stopped' not in case['faults']:
+                out.violation('shutdown:poll-timer-alive', 'after %s the service still received %d polls (faults %s)' % (
+                    op, o['polls_after_shutdown'], case['faults']), witness, replay)
                 return False
             if o['started']:
                 out.violation('shutdown:still-started', 'Deep.started is still true after %s (faults %s)' % (
@@ -203,8 +207,15 @@ def child_lifecycle(case):
             return 'agent' if str(mod).startswith('deep.') or 'deep' in str(getattr(f, '__module__', '')) else 'other'
         return [name(sys.gettrace()), name(threading.gettrace())]
 
+    named = {'seen': False}
+
     def timers():
-        return sum(1 for t in threading.enumerate() if t.name == 'Tracepoint Long Poll' and t.is_alive())
+        # by thread name when the agent names its timer thread that way; otherwise unknown (None) and the
+        # poll-based observation below decides alone
+        n = sum(1 for t in threading.enumerate() if t.name == 'Tracepoint Long Poll' and t.is_alive())
+        if n:
+            named['seen'] = True
+        return n if named['seen'] else None
 
     import deep
     from vf.targets import e2e_target
@@ -225,7 +236,13 @@ def child_lifecycle(case):
             insts = plugins.INSTANCES.get('Life%d' % i, [])
             if insts:
                 ps['Life%d' % i] = len(plugins.events('Life%d' % i, 'shutdown'))
-        obs.append({'op': op, 'hooks': hooks(), 'timers': timers(), 'started': bool(agent.started),
+        growth = None
+        if op.startswith('shutdown') and not case['no_trace']:
+            n1 = len(srv.polls)
+            time.sleep(0.45)           # 4+ poll intervals
+            growth = len(srv.polls) - n1
+        obs.append({'op': op, 'hooks': hooks(), 'timers': timers(), 'polls_after_shutdown': growth,
+                    'started': bool(agent.started),
                     'plugin_shutdowns': ps, 'accepted': accepted[0] if op.startswith('shutdown') else None,
                     'attempted': len(srv.snapshots)})
 
